@@ -17,7 +17,7 @@ from .peer import PeerSim, fix_time
 SESSION_TYPES = refframer.SESSION_TYPES
 SLOT_KINDS = ["app", "app", "app", "app_pdN", "declined", "sess0", "sess1", "sessA", "sess2", "sess4", "sess5", "hole", "res_pd", "res_gf"]
 BIG = 2**62
-APP_TYPES_RICH = ["D", "8", "AE", "AS", "j", "U1", "AP", "0X", "5a", "BE"]
+APP_TYPES_RICH = ["D", "8", "AE", "AS", "j", "U1", "AP", "0X", "5a", "BE", "n"]
 U8_TEXTS = ["Z\u00fcrich", "\u20ac 5", "\u00e9\u00e8\u00ff", "\u4e2d\u6587", "na\u00efve \U0001f600", "\u00a0"]
 
 
